@@ -41,6 +41,40 @@ func c05GenThreadingSeq(r *verifh.Rng) []verifh.Section {
 		}
 		secs = append(secs, verifh.Section{Cfg: fmt.Sprintf("kind=runner mode=seq n=%d", n), Ops: append(ops, "wait", "probe")})
 	}
+	// a task ends by panic while its panic report is kept waiting in the log writer; Wait and an immediate
+	// ScheduleImmediately follow: every slot has to be free the moment Wait returns (release before Done, both
+	// before the report) — for Schedule and ScheduleImmediately tasks, last task and one of several
+	for i := 0; i < verifh.Scale(10, 120); i++ {
+		n := c5.PickN(r)
+		var ops []string
+		k := r.Range(1, n)
+		for j := 0; j < k; j++ {
+			ops = append(ops, r.PickS("try", "borrow"))
+		}
+		for j := 0; j < k; j++ {
+			how := r.PickS("panic", "panicerr")
+			switch {
+			case j == k-1 || r.Chance(1, 2):
+				ops = append(ops, "finish "+how+" held")
+			default:
+				ops = append(ops, c5.FinishOp(r)())
+			}
+			if r.Chance(1, 4) {
+				ops = append(ops, "probe")
+			}
+		}
+		ops = append(ops, "wait", "try", "probe")
+		if r.Chance(1, 2) {
+			ops = append(ops, c5.SeqOps(r, n, r.Range(4, 12), true, func() string {
+				if r.Chance(1, 4) {
+					return "finish " + r.PickS("panic", "panicerr") + " held"
+				}
+				return c5.FinishOp(r)()
+			})...)
+			ops = append(ops, "wait", "probe")
+		}
+		secs = append(secs, verifh.Section{Cfg: fmt.Sprintf("kind=runner mode=seq n=%d", n), Ops: ops})
+	}
 	// several TaskRunners alive at once, each checked against its own concurrency
 	for i := 0; i < verifh.Scale(8, 100); i++ {
 		k := r.Range(2, 3)
@@ -64,25 +98,87 @@ func c05GenThreadingConc(r *verifh.Rng) []verifh.Section {
 	for i := 0; i < verifh.Scale(6, 100); i++ {
 		n := r.Pick(1, 2, 3, r.Range(1, 12), 16)
 		secs = append(secs, verifh.Section{Cfg: fmt.Sprintf("kind=wgroup mode=conc n=%d", n), Ops: []string{
-			fmt.Sprintf("run api=workergroup pan=%d rs=%d", r.Pick(0, 30, 100), r.Intn(1<<30)),
-			fmt.Sprintf("run api=routinegroup pan=%d rs=%d", r.Pick(0, 0, 50), r.Intn(1<<30)),
+			fmt.Sprintf("run api=workergroup pan=%d exits=%s rs=%d", r.Pick(0, 30, 100), r.PickS("s", "seg", "g"), r.Intn(1<<30)),
+			fmt.Sprintf("run api=routinegroup pan=%d exits=%s rs=%d", r.Pick(0, 0, 50), r.PickS("s", "seg"), r.Intn(1<<30)),
 		}})
 	}
 	for i := 0; i < verifh.Scale(5, 150); i++ {
 		n := r.Pick(1, 2, 3, r.Range(1, 8))
 		g := r.Pick(1, 2, n+1, r.Range(2, 8))
 		secs = append(secs, verifh.Section{Cfg: fmt.Sprintf("kind=runner mode=conc n=%d", n), Ops: []string{
-			fmt.Sprintf("run g=%d iters=%d imm=%d pan=%d rs=%d", g, r.Range(10, verifh.Scale(40, 120)), r.Pick(0, 30, 70), r.Pick(0, 10, 40), r.Intn(1<<30)),
-			fmt.Sprintf("run g=%d iters=%d imm=%d pan=%d rs=%d", g, r.Range(5, 30), 50, 100, r.Intn(1<<30)),
+			fmt.Sprintf("run g=%d iters=%d imm=%d pan=%d exits=%s rs=%d", g, r.Range(10, verifh.Scale(40, 120)), r.Pick(0, 30, 70), r.Pick(0, 10, 40), r.PickS("s", "seg", "e"), r.Intn(1<<30)),
+			fmt.Sprintf("run g=%d iters=%d imm=%d pan=%d exits=%s rs=%d", g, r.Range(5, 30), 50, 100, r.PickS("seg", "g", "se"), r.Intn(1<<30)),
+			fmt.Sprintf("waitprobe rounds=%d pan=%d exits=%s rs=%d", r.Range(600, verifh.Scale(1500, 4000)), r.Pick(0, 0, 30, 100), r.PickS("s", "seg"), r.Intn(1<<30)),
 		}})
 	}
 	return secs
 }
 
 type c05Gate struct {
-	ch   chan bool // value: panic?
+	ch   chan byte // value: how the task ends (0 return, 's' panic string, 'e' panic error, 'g' Goexit)
 	done chan struct{}
 }
+
+// ---- a log writer that can keep a panic report waiting ----
+
+// c05HoldWriter is a logx.Writer that discards everything; while armed, the first error/stack report (what
+// rescue.Recover writes after a panic) is kept waiting inside the write until Release. It turns "what has
+// already happened when the panic is reported" (was the permit given back? was Done called?) into an observation
+// that does not depend on how long a report takes.
+type c05HoldWriter struct {
+	armed   int32
+	Parked  chan struct{}
+	release chan struct{}
+}
+
+func c05NewHoldWriter() *c05HoldWriter {
+	return &c05HoldWriter{Parked: make(chan struct{}, 16), release: make(chan struct{})}
+}
+
+// Install makes w the process' logx writer (nothing is printed).
+func (w *c05HoldWriter) Install() { logx.SetWriter(w) }
+
+// Arm: the next report parks.
+func (w *c05HoldWriter) Arm() {
+	for len(w.Parked) > 0 {
+		<-w.Parked
+	}
+	w.release = make(chan struct{})
+	atomic.StoreInt32(&w.armed, 1)
+}
+
+// Release lets a parked report (if any) through and disarms.
+func (w *c05HoldWriter) Release() {
+	if atomic.SwapInt32(&w.armed, 0) != 0 {
+		close(w.release)
+	}
+}
+
+func (w *c05HoldWriter) hold() {
+	if atomic.CompareAndSwapInt32(&w.armed, 1, 2) {
+		rel := w.release
+		w.Parked <- struct{}{}
+		<-rel
+		atomic.CompareAndSwapInt32(&w.armed, 2, 0)
+	}
+}
+
+func (w *c05HoldWriter) Alert(v any)                         {}
+func (w *c05HoldWriter) Close() error                        { return nil }
+func (w *c05HoldWriter) Debug(v any, f ...logx.LogField)     {}
+func (w *c05HoldWriter) Error(v any, f ...logx.LogField)     { w.hold() }
+func (w *c05HoldWriter) Info(v any, f ...logx.LogField)      {}
+func (w *c05HoldWriter) Severe(v any)                        { w.hold() }
+func (w *c05HoldWriter) Slow(v any, f ...logx.LogField)      {}
+func (w *c05HoldWriter) Stack(v any)                         { w.hold() }
+func (w *c05HoldWriter) Stat(v any, f ...logx.LogField)      {}
+
+
+var c05Hold = c05NewHoldWriter()
+
+// c05WaitBlockedSeen: a Wait was seen blocked while a panic report was held (only on a changed tree); the
+// question is not asked again in this process (every answer would cost the full limit).
+var c05WaitBlockedSeen bool
 
 func c05StartRunner(cfg verifh.Cfg) (func(op []string) string, func()) {
 	n := cfg.Int("n", 1)
@@ -119,15 +215,66 @@ func c05StartRunner(cfg verifh.Cfg) (func(op []string) string, func()) {
 		return false
 	} // tasks admitted and blocked on their gate, oldest first
 	newTask := func() (*c05Gate, func()) {
-		g := &c05Gate{ch: make(chan bool), done: make(chan struct{})}
+		g := &c05Gate{ch: make(chan byte), done: make(chan struct{})}
 		return g, func() {
 			defer close(g.done)
-			if <-g.ch {
-				panic("c05: task panics")
+			if k := <-g.ch; k != 0 {
+				c5.Abort(k)
 			}
 		}
 	}
-	finish := func(pan bool) string {
+	// finishHeld: the oldest task ends by panic while the log writer keeps the panic report (what
+	// rescue.Recover writes AFTER its clean-ups) waiting. At that instant the harness looks: is the slot free
+	// again, and (when no other task runs) does Wait return? Then the report is let through.
+	finishHeld := func(kind byte) string {
+		g := running[0]
+		running = running[1:]
+		before := len(rp.limitChan)
+		// a panic (any value) is reported by rescue.Recover; runtime.Goexit is not (recover() yields nil): nothing to hold
+		reported := false
+		if kind == 's' || kind == 'e' {
+			c05Hold.Arm()
+		}
+		g.ch <- kind
+		<-g.done
+		if kind == 's' || kind == 'e' {
+			// the report arrives (a tree that no longer reports panics costs this timeout once per op)
+			reported = c5.WaitUntil(10*time.Second, func() bool { return len(c05Hold.Parked) > 0 })
+		}
+		res := "report=none"
+		var waitDone chan struct{}
+		if reported {
+			slot, wait := "free", "n/a"
+			if len(rp.limitChan) >= before {
+				slot = "held"
+			}
+			if len(running) == 0 && !wgLeaked && !c05WaitBlockedSeen {
+				// Done has been called before the report is written, so Wait returns as soon as its goroutine runs;
+				// a generous limit (the machine may be loaded) that is only ever used up on a tree where Wait does
+				// block — there once per process
+				waitDone = make(chan struct{})
+				go func(d chan struct{}) { rp.Wait(); close(d) }(waitDone)
+				if c5.WaitUntil(10*time.Second, closed(waitDone)) {
+					wait, waitDone = "returns", nil
+				} else {
+					wait = "blocked"
+					c05WaitBlockedSeen = true
+				}
+			}
+			res = fmt.Sprintf("report=held slot=%s wait=%s", slot, wait)
+		}
+		c05Hold.Release()
+		if waitDone != nil && !c5.WaitUntil(5*time.Second, closed(waitDone)) {
+			stuckWaits++
+			wgLeaked = true
+		}
+		c5.WaitUntil(5*time.Second, func() bool { return len(rp.limitChan) < before })
+		if len(rp.limitChan) < before {
+			return "ok " + res
+		}
+		return "leaked " + res
+	}
+	finish := func(pan byte) string {
 		if len(running) == 0 {
 			return "none"
 		}
@@ -140,7 +287,7 @@ func c05StartRunner(cfg verifh.Cfg) (func(op []string) string, func()) {
 		// right after it — a goroutine count back at the expected level with the slot still taken is a leak
 		// seen without waiting out a timeout
 		c5.WaitUntil(5*time.Second, func() bool {
-			return len(rp.limitChan) < before || runtime.NumGoroutine() <= base+len(running)
+			return len(rp.limitChan) < before || runtime.NumGoroutine() <= base+len(running)+stuckWaits
 		})
 		if len(rp.limitChan) < before {
 			return "ok"
@@ -165,7 +312,7 @@ func c05StartRunner(cfg verifh.Cfg) (func(op []string) string, func()) {
 			k++
 		}
 		for _, g := range gs {
-			g.ch <- false
+			g.ch <- 0
 			<-g.done
 		}
 		want := len(running)
@@ -210,7 +357,7 @@ func c05StartRunner(cfg verifh.Cfg) (func(op []string) string, func()) {
 			}
 			old := running[0]
 			running = running[1:]
-			old.ch <- false
+			old.ch <- 0
 			<-old.done
 			select {
 			case <-done:
@@ -220,7 +367,10 @@ func c05StartRunner(cfg verifh.Cfg) (func(op []string) string, func()) {
 			running = append(running, g)
 			return "blocked"
 		case "finish":
-			return finish(len(op) > 1 && op[1] == "panic")
+			if len(op) > 2 && op[2] == "held" && len(running) > 0 {
+				return finishHeld(c5.FinishKind(op))
+			}
+			return finish(c5.FinishKind(op))
 		case "wait":
 			// TaskRunner.Wait: returns at once when nothing is running (also after refused
 			// ScheduleImmediately calls); blocks while tasks run and returns when the last one has ended
@@ -253,7 +403,7 @@ func c05StartRunner(cfg verifh.Cfg) (func(op []string) string, func()) {
 			case <-time.After(time.Millisecond):
 			}
 			for len(running) > 1 {
-				if res := finish(false); res != "ok" {
+				if res := finish(0); res != "ok" {
 					return res
 				}
 				select {
@@ -262,7 +412,7 @@ func c05StartRunner(cfg verifh.Cfg) (func(op []string) string, func()) {
 				default:
 				}
 			}
-			if res := finish(false); res != "ok" {
+			if res := finish(0); res != "ok" {
 				return res
 			}
 			c5.WaitUntil(5*time.Second, func() bool { return isDone() || runtime.NumGoroutine() <= base+1 })
@@ -273,9 +423,61 @@ func c05StartRunner(cfg verifh.Cfg) (func(op []string) string, func()) {
 			return "stuck"
 		case "probe":
 			return fmt.Sprintf("free=%d", probe())
+		case "waitprobe":
+			// rounds of: schedule k <= n short tasks (Schedule / ScheduleImmediately, some ending by panic or
+			// Goexit), Wait, and AT ONCE look at the slots: Wait returning means every task has given its slot
+			// back (release happens before Done). The window of an inverted order is a few instructions wide
+			// without a panic, so the round is repeated; no false alarm is possible on a correct order.
+			p := c5.Params(op)
+			rounds, pan := p.Int("rounds", 100), p.Int("pan", 0)
+			exits := p.Str("exits", "s")
+			if dead || wgLeaked {
+				return "stuck"
+			}
+			r := c5.Rng(p, 0)
+			early, worst, busy := 0, 0, 0
+			for i := 0; i < rounds; i++ {
+				k := 1 + r.Intn(n)
+				for j := 0; j < k; j++ {
+					var kind byte
+					if r.Intn(100) < pan {
+						kind = exits[r.Intn(len(exits))]
+					}
+					task := func() {
+						if kind != 0 {
+							c5.Abort(kind)
+						}
+					}
+					if r.Bool() {
+						rp.Schedule(task)
+					} else if rp.ScheduleImmediately(task) != nil {
+						busy++ // k <= n tasks after a Wait: a refusal means slots of finished tasks are still taken
+					}
+				}
+				done := make(chan struct{})
+				go func() { rp.Wait(); close(done) }()
+				select {
+				case <-done:
+				case <-time.After(10 * time.Second):
+					dead, wgLeaked = true, true
+					stuckWaits++
+					return "stuck wait"
+				}
+				if taken := len(rp.limitChan); taken > 0 {
+					early++
+					if taken > worst {
+						worst = taken
+					}
+				}
+				if !c5.WaitUntil(5*time.Second, func() bool { return len(rp.limitChan) == 0 }) {
+					return fmt.Sprintf("leaked rounds=%d early=%d worst=%d busy=%d", i+1, early, worst, busy)
+				}
+			}
+			return fmt.Sprintf("rounds=%d early=%d worst=%d busy=%d", rounds, early, worst, busy)
 		case "run":
 			p := c5.Params(op)
 			g, iters, imm, pan := p.Int("g", 2), p.Int("iters", 10), p.Int("imm", 0), p.Int("pan", 0)
+			exits := p.Str("exits", "s")
 			h := c5.NewHist(g)
 			ga := &c5.Gauge{}
 			var wg sync.WaitGroup
@@ -287,7 +489,7 @@ func c05StartRunner(cfg verifh.Cfg) (func(op []string) string, func()) {
 					for i := 0; i < iters; i++ {
 						tid := gid*100000 + i
 						tr := r.Fork()
-						task := func() { c5.Inside(h, ga, tr, -1, tid, pan) }
+						task := func() { c5.InsideK(h, ga, tr, -1, tid, pan, exits) }
 						if r.Intn(100) < imm {
 							if rp.ScheduleImmediately(task) != nil {
 								h.Rec(gid, "x"+strconv.Itoa(tid))
@@ -325,7 +527,7 @@ func c05StartRunner(cfg verifh.Cfg) (func(op []string) string, func()) {
 	}
 	return step, func() {
 		for len(running) > 0 {
-			finish(false)
+			finish(0)
 		}
 		if !wgLeaked {
 			waitIdle()
@@ -351,7 +553,7 @@ func c05StartWorkerGroup(cfg verifh.Cfg) (func(op []string) string, func()) {
 		var ids int64
 		job := func() {
 			tid := int(atomic.AddInt64(&ids, 1)) - 1
-			c5.Inside(h, ga, verifh.NewRng(uint64(p.Int("rs", 1))*1000003+uint64(tid)), -1, tid, pan)
+			c5.InsideK(h, ga, verifh.NewRng(uint64(p.Int("rs", 1))*1000003+uint64(tid)), -1, tid, pan, p.Str("exits", "s"))
 		}
 		if p.Str("api", "workergroup") == "workergroup" {
 			if !c5.WatchdogProgress(h, c5.StuckIdle, c5.StuckAfter, NewWorkerGroup(job, n).Start) {
@@ -381,7 +583,7 @@ func c05StartWorkerGroup(cfg verifh.Cfg) (func(op []string) string, func()) {
 }
 
 func c05RunThreading(t *testing.T, secs []verifh.Section) {
-	logx.Disable()
+	c05Hold.Install() // nothing is printed; a panic report can be kept waiting (finish … held)
 	var start func(cfg verifh.Cfg) (func(op []string) string, func())
 	start = func(cfg verifh.Cfg) (func(op []string) string, func()) {
 		if cfg.Str("ns", "") != "" {
